@@ -21,8 +21,8 @@ def split_out(line):
     if not m:
         return None, line, {}
     out = m.group(2)
-    attrs = dict(re.findall(r" (where|after)=(\S+)", out))
-    core_out = re.sub(r" (where|after)=\S+", "", out)
+    attrs = dict(re.findall(r" (where|after|from)=(\S+)", out))
+    core_out = re.sub(r" (where|after|from)=\S+", "", out)
     return m.group(1), core_out, attrs
 
 
@@ -30,8 +30,13 @@ def attrs_full(x):
     return x
 
 
-def judge(variant, src, core_out, attrs):
+STATIC_ACTIONS = {"none", "nullcell", "retarget"}     # the adversary changes the pointer cell only, never a datum
+
+
+def judge(variant, src, core_out, attrs, actions=()):
     """the property, evaluated directly on what the verifier/application got. None = fine"""
+    if attrs.get("from") in ("OTHER", "outside") and set(actions) <= STATIC_ACTIONS:
+        return "the bytes handed to the verifier are not those of the extent that was range-checked (copied from an address fetched at another moment)"
     if attrs.get("where", "app") != "app":
         return "the object handed to the verifier lies in sandbox memory"
     if attrs.get("after", "same") != "same":
@@ -143,7 +148,7 @@ def run(chk):
         _, core_out, attrs = split_out(l)
         outcomes.setdefault(key, {}).setdefault(core_out, 0)
         outcomes[key][core_out] += 1
-        why = judge(v, s, core_out, attrs)
+        why = judge(v, s, core_out, attrs, key[2:])
         if why is not None:
             chk.fail(f"{why}: `{o}` -> `{l}`", {"op": o, "impl": l, "model_outcomes": sorted(msets[key])[:12], "oracle": "fail"},
                      signature=f"C09/{v}-{s}-{'+'.join(key[2:])}", found=True)
